@@ -95,13 +95,14 @@ UNSUPPORTED = {
                                          "CREATE RULE r AS ON INSERT TO t DO\nINSERT INTO log VALUES (1);"],
     # an unsupported statement behind a stray statement terminator on the same line
     "stray_semicolon": ["; SELECT 1;", "; WITH x AS (SELECT 1) SELECT * FROM x;", "; COMMIT;", "; UPDATE t SET a = 1;", ";; SELECT 2;", ";SELECT 1;"],
-    # statements commented out the way dump tools do it: a block comment over several lines whose closing line goes on after the '*/'
-    "commented_out": ["/*!50001 CREATE VIEW v AS\nSELECT 1 */;", "/*!50003 CREATE TRIGGER tr BEFORE INSERT ON t\nFOR EACH ROW SET NEW.a = 1 */;",
-                      "/* SELECT a\n   FROM t */;", "/*\nUPDATE t SET a = 1;\n*/ ;", "/*!40101 SELECT 1\n*/ -- restored", "/* DROP VIEW v;\nDROP VIEW w; */;"],
     # malformed statements with unbalanced parentheses (they leave lp_open / last_par set in the lexer)
     "unparseable": ["CALL p((1, 2);", "SELECT f(a FROM t;", "SELECT a FROM t WHERE b IN (1, 2;",
                     "CREATE VIEW v AS SELECT (a + (b * 2) FROM t;", "CALL p(1, 2));", "SELECT ((a FROM t;"],
 }
+# statements commented out the way dump tools do it: a block comment over several lines whose closing line goes on after the '*/'
+# (comments, not statements: skipped silently in both modes - used by C03 only)
+COMMENTED_OUT = ["/*!50001 CREATE VIEW v AS\nSELECT 1 */;", "/*!50003 CREATE TRIGGER tr BEFORE INSERT ON t\nFOR EACH ROW SET NEW.a = 1 */;",
+                      "/* SELECT a\n   FROM t */;", "/*\nUPDATE t SET a = 1;\n*/ ;", "/*!40101 SELECT 1\n*/ -- restored", "/* DROP VIEW v;\nDROP VIEW w; */;"]
 # documented behaviour (README/CHANGELOG): lines starting with these words are ignored by the
 # pre-processor in both modes - no entity and no exception
 IGNORED = ["INSERT INTO t (a, b) VALUES (1, 'x');", "DELETE FROM t WHERE a = 1;", "GRANT SELECT ON t TO joe;",
